@@ -5,6 +5,7 @@ FENCE_NOTE = ("Trusts: x86-64 Linux page protection and the fault error code (wr
               "and 20-40 line C models). Accesses inside mapped memory that is no arena slot are not observed.")
 
 ENGINES = [
+    {"name": "sortsearch", "path": "harness/sortsearch.c", "serves_properties": ["C16"], "kind_free_text": "qsort_s / bsearch_s driver with checking comparators"},
     {"name": "queries", "path": "harness/queries.c", "serves_properties": ["C01", "C02", "C05", "C10"],
      "kind_free_text": "exhaustive small-alphabet driver for the read-only query exports under the fence, with reference models"},
     {"name": "engine", "path": "harness/engine.c",
@@ -51,6 +52,11 @@ META = {
              text="Every comparison/search/span/length/classification export is called on all strings over a small alphabet (both operands), "
                   "with dmax/slen at, above and below the string lengths, and its answer compared with a reference computed on bounded "
                   "private copies; operands must be unchanged. Exhaustive inside the stated bounds, nothing beyond them.",
+             note=FENCE_NOTE),
+ "C16": dict(technique="runtime monitoring: checking comparator + post-sort order/permutation scan + linear-search reference, array between guard pages, plain and ASan builds",
+             engine="sortsearch",
+             text="qsort_s on exact-fit arrays between PROT_NONE pages: result must be ordered and a permutation (multiset of whole elements), every comparator "
+                  "argument inside the array on an element boundary with the caller's context; then bsearch_s for every key value: found iff present, result is a matching element.",
              note=FENCE_NOTE),
  "C08": dict(technique="runtime monitoring: slack scan behind the reference-computed terminator after success",
              text="Default build: dest[len..dmax) all zero after success of the slack-nulling functions, len from the reference model; "
